@@ -71,6 +71,9 @@ func c20Gen(rng *verifsim.RNG, idx int, tier string) *Plan {
 			case 3:
 				st.FailAt = sigAt + int64(rng.Intn(3)-1) // races the signal
 			}
+			if st.FailAt >= 0 && rng.Bool(0.3) {
+				st.FailKind = "canceled"
+			}
 			if rng.Bool(0.3) {
 				st.StopLag = int64(rng.Dur(time.Millisecond, 3*time.Second)) // slow to stop
 			}
